@@ -156,7 +156,7 @@ func (e *swEval) inputVec() bitvec {
 }
 
 func (e *swEval) block(list []ast.Stmt) {
-	for _, st := range list {
+	for _, st := range effectiveQ(e.info, list) {
 		if e.fail != "" {
 			return
 		}
